@@ -538,8 +538,14 @@ fn scoping_part(rep: &mut Report, pending: &mut Vec<Pending>) {
         ("k".to_string(), CelValue::Int(3)),
         ("acc".to_string(), CelValue::Int(-5)),
     ];
-    let progs = vec![("kplus".to_string(), compile("k + 1").unwrap()), ("readv".to_string(), compile("v").unwrap())];
+    let progs = vec![
+        ("kplus".to_string(), compile("k + 1").unwrap()),
+        ("readv".to_string(), compile("v").unwrap()),
+        ("p".to_string(), compile("100").unwrap()),
+        ("pacc".to_string(), compile("1000 + k").unwrap()),
+    ];
     let int = CelValue::Int;
+    let bl = CelValue::Bool;
     let cases: Vec<(&str, CelValue, &str)> = vec![
         // inner macro re-uses the name; afterwards the outer loop variable is back
         ("L.map(v, [v + 1].map(v, v * 2)[0] + v)", li(&|e| int((e + 1) * 2 + e)), "nested macro re-uses the loop variable's name"),
@@ -562,6 +568,32 @@ fn scoping_part(rep: &mut Report, pending: &mut Vec<Pending>) {
         ("L.all(v, L.exists(v, v == 0) && v >= 0)", CelValue::Bool(true), "nested macro over the same receiver, same name"),
         ("L.exists_one(v, v == 7 && [v].exists_one(v, v == 7))", CelValue::Bool(true), "nested exists_one"),
         ("L.map(v, v, [v, k].map(v, v + 1))", CelValue::List(l.iter().filter(|e| **e != 0).map(|e| CelValue::List(vec![int(e + 1), int(4)])).collect()), "three-argument map, nested re-use"),
+        // a loop variable also shadows a stored program of the same name; the program is back afterwards
+        ("L.map(p, p + 1)", li(&|e| int(e + 1)), "loop variable named like a stored program"),
+        ("L.filter(p, p < 3)", CelValue::List(l.iter().filter(|e| **e < 3).map(|e| int(*e)).collect()), "loop variable named like a stored program"),
+        ("L.all(p, p < 50)", bl(true), "loop variable named like a stored program"),
+        ("L.exists(p, p == 100)", bl(false), "loop variable named like a stored program"),
+        ("L.exists_one(p, p == 7)", bl(true), "loop variable named like a stored program"),
+        ("L.reduce(pacc, p, pacc + p, 0)", int(l.iter().sum()), "accumulator and loop variable named like stored programs"),
+        ("L.reduce(pacc, v, pacc + v, pacc)", int(l.iter().sum::<i64>() + 1003), "the seed sees the stored program of the accumulator's name"),
+        ("[L.map(p, p)[0], p, pacc]", CelValue::List(vec![int(4), int(100), int(1003)]), "stored programs visible again after the macro"),
+        ("L.map(p, [p].map(p, p + pacc)[0])", li(&|e| int(e + 1003)), "nested re-use of a stored program's name, another program read in the body"),
+        ("L.map(v, p + v)", li(&|e| int(e + 100)), "stored program visible in the body"),
+        // calls the compiler can evaluate itself: the loop variable is named like a built-in, the list is constant
+        ("[1, 1].exists_one(size, size == 1)", bl(false), "closed exists_one, loop variable named like a function"),
+        ("[1, 2, 3].exists_one(max, max > 1)", bl(false), "closed exists_one, loop variable named like a function"),
+        ("[1, 2, 3].exists_one(max, max > 2)", bl(true), "closed exists_one, loop variable named like a function"),
+        ("[1, 2, 3].all(min, min > 0)", bl(true), "closed all, loop variable named like a function"),
+        ("[1, 2, 3].all(min, min > 1)", bl(false), "closed all, loop variable named like a function"),
+        ("[1, 2, 3].exists(abs, abs == 2)", bl(true), "closed exists, loop variable named like a function"),
+        ("[1, 2, 3].exists(abs, abs == 4)", bl(false), "closed exists, loop variable named like a function"),
+        ("[1, 2, 3].filter(size, size > 1)", CelValue::List(vec![int(2), int(3)]), "closed filter, loop variable named like a function"),
+        ("[1, 2, 3].map(max, max * 2)", CelValue::List(vec![int(2), int(4), int(6)]), "closed map, loop variable named like a function"),
+        ("[1, 2, 3].map(min, min > 1, min * 2)", CelValue::List(vec![int(4), int(6)]), "closed three-argument map, loop variable named like a function"),
+        ("[1, 2, 3].reduce(max, min, max + min, 0)", int(6), "closed reduce, both names like functions"),
+        ("[1, 2].map(w, [2, 2].exists_one(min, min == 2))", CelValue::List(vec![bl(false), bl(false)]), "closed exists_one inside an open macro"),
+        ("[1, 2].map(filter, [2, 3].map(all, all + filter))", CelValue::List(vec![CelValue::List(vec![int(3), int(4)]), CelValue::List(vec![int(4), int(5)])]), "closed nested macros, names like macros"),
+        ("{'a': 1, 'b': 0}.filter(size, size == 'a')", CelValue::List(vec![CelValue::String("a".into())]), "closed filter over a map literal"),
     ];
     for (src, want, what) in cases {
         let p = match compile(src) {
